@@ -1064,6 +1064,25 @@ type Splitter interface {
 """
 flagsets("stubshape", "adv/stubshape", ["Splitter"])
 
+# numbering next to names that already end in a digit; a generic interface that mentions no type
+# of its own package (nothing of the source package to import with -skip-ensure)
+FILES["adv/numbered/a.go"] = """package numbered
+
+type Compare interface {
+	Compare(v1 string, v string) int
+	Scale(n1 float64, _ int) float64
+	Copy(s1 string, _ string, _ string) (s2 string, _ string)
+	Three(s string, _ string, s3 string, _ string)
+}
+
+type Cache[K comparable, V any] interface {
+	Get(k K) (V, bool)
+	Put(k K, v V, more ...V)
+}
+"""
+flagsets("numbered", "adv/numbered", ["Compare"], modes=("",))
+flagsets("numbered-gen", "adv/numbered", ["Cache"])
+
 
 def write_all(root, write):
     for rel, (name, decls) in EXTRA_DEPS.items():
